@@ -91,6 +91,7 @@ type agg struct {
 	viols      []harness.Record
 	known      map[string]int
 	wallMS     float64
+	extra      map[string]any
 }
 
 func newAgg() *agg {
@@ -340,6 +341,21 @@ func runCheck(prop, tier string) int {
 	exit := 0
 	var replayPath string
 	var reported *harness.Violation
+	var raceInfo map[string]any
+	if sp.Race && len(a.viols) == 0 {
+		var rv *harness.Violation
+		rv, replayPath, raceInfo = runRace(sp, tier, seed, known)
+		if rv != nil {
+			if what, isKnown := known.match(prop, rv); isKnown {
+				a.known[what]++
+			} else {
+				reported = rv
+				fmt.Printf("  %s\n", rv.Detail)
+				fmt.Printf("VIOLATION property=%s replay=%s\n", prop, replayPath)
+				exit = 1
+			}
+		}
+	}
 	if len(a.viols) > 0 {
 		sort.Slice(a.viols, func(i, j int) bool { return a.viols[i].Run < a.viols[j].Run })
 		first := a.viols[0]
@@ -386,6 +402,7 @@ func runCheck(prop, tier string) int {
 	if len(trouble) > 0 {
 		fmt.Fprintf(os.Stderr, "[check] worker trouble (%d): %s\n", len(trouble), tail(strings.Join(trouble, " | "), 1500))
 	}
+	a.extra = raceInfo
 	writeEvidence(sp, tier, seed, a, time.Since(start), reported, replayPath)
 	fmt.Printf("[check] %s %s: %d runs (%d sub-runs, %d operations), %d distinct non-trivial, %d inconclusive, %.1fs, exit %d\n",
 		prop, tier, a.evals, a.subRuns, a.ops, len(a.nontrivial), a.inconcl, time.Since(start).Seconds(), exit)
@@ -420,6 +437,9 @@ func writeEvidence(sp *propSpec, tier string, seed uint64, a *agg, wall time.Dur
 	}
 	if a.samples == nil {
 		cov["samples"] = []any{"(no run completed)"}
+	}
+	if a.extra != nil {
+		cov["race_detector_configuration"] = a.extra
 	}
 	nviol := 0
 	if v != nil {
